@@ -5,6 +5,7 @@ the grammar declares insignificant.  The reference parser (with span tracking) i
 where subexpressions, argument lists and call forms start and end.
 """
 import random
+import re
 
 from lib import gram, refspans, refparser, treeconv
 
@@ -16,6 +17,7 @@ RULE = ('valid programs (random derivations of the grammar, 1-5 statements, acce
         'together, (8) redundant parentheses around every subexpression, one at a time and in random combinations, (9) the three spellings r.f(a) / r | f(a) / '
         'f(r, a) of every call site. Non-trivial = a rewritten text differing from the base text was parsed and its tree compared; distinct = distinct (base, rewritten) text pair.')
 RULE += " Besides the neutral-tree comparison the implementation's own == on trees must hold; comment bodies contain FF/VT/FS-RS/NEL/U+2028/U+2029 followed by code-looking text; 15 % of the bases are preceded by an arbitrary earlier call."
+RULE += ' Pairs with equal trees are also evaluated (short programs always, others 8 %) with a dict, a __missing__ mapping, a defaultdict or a Counter as names: outcome, value and names must agree.'
 ASSUMPTIONS = ['the oracle is the implementation\'s own tree of the base text (metamorphic); R1 is used only for positions',
                'parentheses are added only around complete subexpressions (never parameter names, call names, assignment/del targets or lambda parameter lists)',
                'comments are placed only before existing line ends; ; <-> newline only at bracket depth 0; no trailing comma for empty lists or lambda parameter lists']
@@ -84,6 +86,27 @@ def join(texts, types, r, blanks=0.0, bracket_nl=0.0, comments=0.0, crlf=False, 
     if crlf:
         text = text.replace('\r\n', '\n').replace('\n', '\r\n')
     return text
+
+
+class Missing0(dict):
+    def __missing__(self, key):
+        return 0
+
+
+ADDR = re.compile(r'0x[0-9a-f]+')
+
+
+def eval_outcome(ctx, text, flavour):
+    """what eval() of the text does for the host: outcome class, value, names afterwards (addresses removed)"""
+    import collections
+    base = {'a': 1, 'b': [1, 2, 3], 'x': 'abc', 'f': max, 'g': min, 'k2': {'k': 1}, 'y': 2, 'c': 0, '_t': None}
+    names = [dict, Missing0, lambda d: collections.defaultdict(list, d), collections.Counter][flavour]({k: v for k, v in base.items() if k not in ('b', 'k2', 'x', '_t', 'f', 'g')} if flavour == 3 else base)
+    try:
+        v = ctx.P.eval(text, names, None, 80)
+        out = ('value', ADDR.sub('0x', repr(v))[:300])
+    except Exception as e:
+        out = ('raised', type(e).__name__, ADDR.sub('0x', str(e))[:200])
+    return out + (ADDR.sub('0x', repr(sorted(names.items(), key=lambda kv: str(kv[0]))))[:600],)
 
 
 def run_case(case, ctx):
@@ -162,6 +185,15 @@ def run_case(case, ctx):
             ctx.violation(what, ('pair', base, text2, kind), detail={'base': base, 'rewritten': text2, 'base_tree': str(b[1])[:500], 'rewritten_outcome': str(g[1])[:500]})
         elif ctx.counters['pairs_compared'] % 3000 == 1:
             ctx.sample({'rewrite': kind, 'base': base, 'rewritten': text2})
+        if g == b and (len(types) <= 4 or r.random() < 0.08):
+            # ... and denotes the same program for the host: evaluating the two layouts gives the same outcome, value and names, whatever mapping serves
+            # as names (a dict, mappings defining __missing__, a Counter)
+            fl = r.randrange(4)
+            o1, o2 = eval_outcome(ctx, base, fl), eval_outcome(ctx, text2, fl)
+            ctx.count('pairs_also_evaluated')
+            if o1 != o2 and 'RecursionError' not in (o1[1], o2[1]):
+                ctx.violation('%s: the two layouts parse to the same tree but evaluate differently' % kind, ('pair', base, text2, kind),
+                              detail={'base': base, 'rewritten': text2, 'names_flavour': ['dict', '__missing__', 'defaultdict', 'Counter'][fl], 'base_outcome': o1[:3], 'rewritten_outcome': o2[:3]})
 
     # layout rewrites (1)-(6)
     check('blanks/tabs', join(texts, types, r, blanks=0.6))
